@@ -102,6 +102,44 @@ func zzC05_ownid() {
 	}
 }
 
+// C05-B — the two copies are processed concurrently (2 goroutines): the handler still runs at most once
+func zzC05_concurrent() {
+	s := zzNewSession()
+	calls := 0
+	cc := zzNewConn(s, zzConnCfg{midSeed: 1000, handler: func(w *responsewriter.ResponseWriter[*Conn], r *pool.Message) {
+		calls++
+		symYield() // the application handler may take its time
+		if symParam("respond", 1) == 1 {
+			_ = w.SetResponse(codes.Content, message.AppOctets, bytesReader([]byte{7}))
+		}
+	}})
+	symSetNow(time.Unix(0, 1<<41))
+	typ := message.Confirmable
+	if symChoose("type", 2) == 1 {
+		typ = message.NonConfirmable
+	}
+	done := 0
+	for i := 0; i < 2; i++ {
+		go func() {
+			cc.ProcessReceivedMessage(zzRequest(typ, 7, codes.GET, message.Token{0xA1}, nil))
+			done++
+		}()
+	}
+	symWaitUntil(func() bool { return done == 2 })
+	symCover("both-processed")
+	symAssert(calls == 1, "copies processed concurrently are handed to the handler once")
+	symAssert(len(s.written) == 2, "and both copies are answered")
+	if len(s.written) == 2 {
+		symAssert(s.written[0].code == s.written[1].code, "with the same reply")
+		if typ == message.Confirmable {
+			symAssert(s.written[0].mid == 7 && s.written[1].mid == 7, "acknowledgements carry the request's message ID")
+		} else {
+			symAssert(s.written[0].mid == 7 || s.written[1].mid == 7, "the duplicate's reply is matched to the duplicate's message ID")
+		}
+	}
+	symAssert(len(cc.msgIDMutex.ma) == 0, "the per-ID lock is given back")
+}
+
 func zzC05_selftest() {
 	s := zzNewSession()
 	calls := 0
